@@ -6,7 +6,7 @@
    It is compared with the transliterated calAndSetEventNode pass (`eventize (compile t)`) and with Go's own
    event-mode program on every correspondence case (codes 10 and 3). In the model an OP_EXEC event IS the
    observation `OCall name fast args result` made when the operator is applied; a LOOP event is `OLoop`. *)
-Require Import Base Opcode Tables Ops Tree Opt Flat FlatE Run CompFacts EvalDefs EvalTop EvalCorrectE EvalTopE TryCorrect TryCorrectE.
+Require Import Base Opcode Tables Ops Tree Opt Flat FlatE Run CompFacts EvalDefs EvalTop EvalCorrectE EvalTopE TryCorrect TryCorrectE Print DumpStruct DumpStructE.
 Open Scope Z_scope.
 
 (* Eval of the event program: the result (value or the very error), the fetches and the OP_EXEC events —
@@ -31,6 +31,10 @@ Proof. exact tryrun_compileE_correct. Qed.
 Theorem C12_tryeval_events_transparent : forall fetch custom cached t,
   dl (tryeval fetch custom cached (compileE t)) = tryeval fetch custom cached (compile t).
 Proof. exact try_events_transparent. Qed.
+
+(* ... nor the decompiled program *)
+Theorem C12_dump_unchanged : forall t, dump (compileE t) = dump (compile t).
+Proof. exact dump_events_transparent. Qed.
 
 (* without event nodes no LOOP event is ever emitted *)
 Theorem C12_plain_no_loops : forall fetch custom t,
